@@ -140,6 +140,23 @@ func (r *Rewriter) MarkStructCopied(name string) {
 	}
 }
 
+// MarkEmptyStructCopied marks the declaration of name as copied when it still is the bare
+// `type name struct{}` the resolver template emits, so that regenerating an untouched single-file
+// resolver leaves nothing over. A struct that was given fields or a doc comment is not marked.
+func (r *Rewriter) MarkEmptyStructCopied(name string) {
+	for _, f := range r.pkg.Syntax {
+		for _, d := range f.Decls {
+			d, isGen := d.(*ast.GenDecl)
+			if !isGen || d.Tok != token.TYPE || d.Doc != nil {
+				continue
+			}
+			if r.getSource(d.Pos(), d.End()) == "type "+name+" struct{}" {
+				r.copied[d] = true
+			}
+		}
+	}
+}
+
 func (r *Rewriter) ExistingImports(filename string) []Import {
 	filename, err := filepath.Abs(filename)
 	if err != nil {
